@@ -39,6 +39,10 @@ def units(tier, seed, only=None):
             u = emu.gen_unit(name, 'spec', tier, bounded_n=nb)
             u.backends = [be] + [b for b in ('kissat', 'z3', 'cvc5') if b != be]
             u.timeout = 600
+            if name in THOROUGH_ONLY:
+                u.optional = True
+                u.timeout = 900
+                u.backends = u.backends[:1]
             us.append(u)
             continue
         if name in THOROUGH_ONLY:
@@ -57,7 +61,11 @@ def units(tier, seed, only=None):
         # the emulation driver (orc_executor_emulate with the opcode functions stubbed) stayed undecided in three
         # attempts of 15-30 minutes (DESIGN.md 7.5): attempted in the thorough tier only, never counted as proved
         from . import c02_driver
-        us += c02_driver.units(tier, seed)
+        for u in c02_driver.units(tier, seed):
+            u.optional = True
+            u.timeout = 900
+            u.backends = list(u.backends)[:1]
+            us.append(u)
     else:
         skipped.append('orc_executor_emulate (driver: chunking, operand wiring)')
     if only:
